@@ -42,6 +42,13 @@ var slots = []struct{ name, tmpl string }{
 	{"call with children", "package p\n\ntempl c(s string) {\n\t<i>{ children... }</i>\n}\n\ntempl T(x string) {\n\t@c(%E) {\n\t\t<b>%P{ %E }</b>\n\t}\n}\n"},
 	{"raw go", "package p\n\ntempl T(x string) {\n\t{{ v := %E }}\n\t<b>{ v }</b>\n}\n"},
 	{"script element", "package p\n\ntempl T(x string) {\n\t<script>var a = {{ %E }}; var b = \"%P{{ %E }}\";</script>\n}\n"},
+	{"script element attribute", "package p\n\ntempl T(x string) {\n\t<script data-p=\"%P\" nonce={ %E }>var a = 1;</script>\n}\n"},
+	{"script element class attribute", "package p\n\ntempl T(x string) {\n\t<script data-p=\"%P\" class={ %E }>var a = 1;</script>\n}\n"},
+	{"script element boolean and conditional attributes", "package p\n\ntempl T(x bool) {\n\t<script data-p=\"%P\" async?={ %E } if %E {\n\t\tdefer\n\t}>var a = 1;</script>\n}\n"},
+	{"style element attribute", "package p\n\ntempl T(x string) {\n\t<style data-p=\"%P\" media={ %E }>a{}</style>\n}\n"},
+	{"style element class attribute", "package p\n\ntempl T(x string) {\n\t<style data-p=\"%P\" class={ %E }>a{}</style>\n}\n"},
+	{"void element attributes", "package p\n\ntempl T(x string) {\n\t<input data-p=\"%P\" class={ %E } value={ %E }/>\n\t<br class={ %E }/>\n}\n"},
+	{"class attribute inside conditional attribute", "package p\n\ntempl T(x string) {\n\t<div data-p=\"%P\" if true {\n\t\tclass={ %E }\n\t} else {\n\t\tclass={ %E }\n\t}></div>\n}\n"},
 	{"css value", "package p\n\ncss c(x string) {\n\tcolor: { %E };\n\tmargin: 1px;\n}\n"},
 	{"script template", "package p\n\nscript s(a string, b int) {\n\tconsole.log(a, b);\n}\n\ntempl T(x string) {\n\t<button onclick={ s(%E, 1) }>b</button>\n}\n"},
 	{"signature", "package p\n\ntempl T(x string, other map[string][]int) {\n\t<b>%P{ %E }</b>\n}\n\ntempl (r recv) M(x string) {\n\t<i>{ x }</i>\n}\n"},
